@@ -510,6 +510,25 @@ def build_net(rep):
     if not (m0 and mt and isinstance(net, ast.Name)):
         raise AnalysisError("build_petri_net_from_flow: stored net / markings not recognised")
     M0, MT, NETV = m0["m"], mt["m"], net.id
+    # one transition per hyperedge, named after that hyperedge: the certificate is a sequence of hyperedge ids, and the flow prescribes how often
+    # EACH of them fires - a transition that stands for several hyperedges (same equation merged) fires the first one for all of them
+    from ..rules import provenance as PVn
+    for c in [c for c in walk_local(fi.node) if isinstance(c, ast.Call) and norm(c.func) == f"{NETV}.add_transition" and c.args]:
+        enc = [l for l in enclosing_loops(pm, c, fi.node) if norm(l.iter) == "self.edges.items()"]
+        def _roots(e, depth=4):
+            """like all_roots, but a loop target is a root of its own (not the iterable)"""
+            if isinstance(e, ast.Name) and depth > 0:
+                ds = defs.get(e.id, [])
+                if ds and all(d_.kind in ("assign",) and d_.value is not None for d_ in ds):
+                    return [r for d_ in ds for r in _roots(d_.value, depth - 1)]
+                return [e]
+            return [e]
+        roots = _roots(c.args[0])
+        eid_names = {norm(l.target.elts[0]) for l in enc if isinstance(l.target, ast.Tuple) and l.target.elts}
+        okt = bool(enc) and bool(roots) and all(isinstance(r, ast.Name) and r.id in eid_names for r in roots)
+        if not okt:
+            rep.ob("O20.4", "R15", fi, False, c.args[0], "every hyperedge becomes its own transition, named after it (here the transition id is "
+                   f"`{norm(roots[0])[:50] if roots else norm(c.args[0])}`" + ("" if enc else ", registered outside the loop over the hyperedges") + ")", node=c)
     vl = [l for l in walk_local(fi.node) if isinstance(l, ast.For) and norm(l.iter) == "self.vertices"]
     el = [l for l in walk_local(fi.node) if isinstance(l, ast.For) and norm(l.iter) == "self.edges.items()"]
     rep.need("R15", len(vl) + len(el), 2, "vertex loop and edge loop in build_petri_net_from_flow")
